@@ -164,6 +164,7 @@ def build_reference(repo: str) -> dict:
         tree = ast.parse(p.read_text())
         strip_local_annotations(tree)
         inline_return_temps(tree)
+        inline_test_temps(tree)
         for q, fn in top_level_functions(tree):
             order = renamable_names(fn)
             if order:
@@ -268,6 +269,50 @@ def inline_return_temps(tree: ast.Module) -> int:
     return n
 
 
+def inline_test_temps(tree: ast.Module) -> int:
+    """`t = E; if t: ...` is folded back to `if E: ...` when *every* read of the local `t` in the function is such a
+    test directly after an assignment to `t`, every assignment to `t` is followed by such a test, and no nested scope
+    can see `t`.  The repository never writes this form, so on the reference tree this is the identity; it undoes the
+    usual first step of someone who wants to log a condition before branching on it."""
+    n = 0
+    for _, fn in top_level_functions(tree):
+        escaping = set()
+        loads, stores = {}, {}
+        for x in ast.walk(fn):
+            if x is not fn and isinstance(x, (ast.FunctionDef, ast.AsyncFunctionDef, ast.Lambda)):
+                escaping |= {y.id for y in ast.walk(x) if isinstance(y, ast.Name)}
+            elif isinstance(x, (ast.Global, ast.Nonlocal)):
+                escaping |= set(x.names)
+            elif isinstance(x, ast.Name):
+                (stores if isinstance(x.ctx, (ast.Store, ast.Del)) else loads).setdefault(x.id, []).append(x)
+        params = set()
+        for x in ast.walk(fn):
+            if isinstance(x, ast.arguments):
+                params |= {a.arg for a in x.posonlyargs + x.args + x.kwonlyargs}
+        pairs = {}  # name -> [(block, assign, if)]
+        for node in ast.walk(fn):
+            for field in ("body", "orelse", "finalbody"):
+                b = getattr(node, field, None)
+                if not isinstance(b, list):
+                    continue
+                for a, r in zip(b, b[1:]):
+                    if (isinstance(a, ast.Assign) and len(a.targets) == 1 and isinstance(a.targets[0], ast.Name) and isinstance(r, ast.If)
+                            and isinstance(r.test, ast.Name) and r.test.id == a.targets[0].id):
+                        pairs.setdefault(r.test.id, []).append((b, a, r))
+        for name, ps in pairs.items():
+            if name in escaping or name in params:
+                continue
+            if {id(x) for x in loads.get(name, [])} != {id(r.test) for _, _, r in ps}:
+                continue
+            if {id(x) for x in stores.get(name, [])} != {id(a.targets[0]) for _, a, _ in ps}:
+                continue
+            for b, a, r in ps:
+                r.test = a.value
+                b.remove(a)
+                n += 1
+    return n
+
+
 class _LocalAnnotationStripper(ast.NodeTransformer):
     def __init__(self):
         self.depth = 0
@@ -306,6 +351,7 @@ def canonicalise_module(modname: str, tree: ast.Module) -> int:
     """Rename locals of alpha-equivalent functions to the reference names. Returns #functions renamed."""
     strip_local_annotations(tree)
     inline_return_temps(tree)
+    inline_test_temps(tree)
     ref = load_reference()
     n = 0
     for q, fn in top_level_functions(tree):
